@@ -443,3 +443,25 @@ MUTANTS += [
     B("c01-base-drops-duplicates-silently", ["C01", "C03", "C10"], BS, '            raise AssertionError(f"assertion {z3_assertion} already added.")', '            return False'),
     B("c01-base-get-assertions-partial", ["C01", "C10"], BS, "        return self._z3_assertions\n", "        return self._z3_assertions[1:]\n"),
 ]
+
+FN = "function.py"
+MUTANTS += [
+    # ---- C08: cost functions (R-COST-FUNC) ----------------------------------------
+    B("c08-fn-constant-ignores-value", ["C08"], FN, "self.set_function(lambda x: self.value)", "self.set_function(lambda x: self.value * x)"),
+    B("c08-fn-linear-swapped", ["C08"], FN, "lambda x: self.slope * x + self.intercept", "lambda x: self.intercept * x + self.slope"),
+    B("c08-fn-linear-no-intercept", ["C08"], FN, "lambda x: self.slope * x + self.intercept", "lambda x: self.slope * x"),
+    B("c08-fn-poly-constant-is-first", ["C08"], FN, "result = self.coefficients[-1]", "result = self.coefficients[0]"),
+    B("c08-fn-poly-power-squares", ["C08"], FN, "                v = v * x\n", "                v = v * v\n"),
+    B("c08-fn-poly-skips-highest", ["C08"], FN, "for i in range(len(self.coefficients) - 2, -1, -1):", "for i in range(len(self.coefficients) - 2, 0, -1):"),
+    B("c08-fn-poly-skips-negative", ["C08"], FN, "if self.coefficients[i] != 0:", "if self.coefficients[i] > 0:"),
+    B("c08-fn-poly-power-starts-at-one", ["C08"], FN, "            v = x\n", "            v = 1\n"),
+    B("c08-fn-poly-power-not-advanced-when-zero", ["C08"], FN, "                    result += self.coefficients[i] * v\n                v = v * x\n", "                    result += self.coefficients[i] * v\n                    v = v * x\n"),
+    B("c08-fn-call-ignores-argument", ["C08"], FN, "to_return = self._function(value)", "to_return = self._function(0)"),
+    B("c08-fn-general-not-installed", ["C08"], FN, "        self.set_function(self.function)\n", ""),
+    B("c08-fn-default-one", ["C08"], FN, "self._function = lambda x: 0  # default returns 0", "self._function = lambda x: 1  # default returns 0"),
+    T("c08-fn-twin-linear-commuted", ["C08"], FN, "lambda x: self.slope * x + self.intercept", "lambda x: self.intercept + x * self.slope"),
+    T("c08-fn-twin-poly-no-zero-test", ["C08"], FN, "                if self.coefficients[i] != 0:\n                    result += self.coefficients[i] * v\n", "                result += self.coefficients[i] * v\n"),
+    T("c08-fn-twin-poly-explicit-last", ["C08"], FN, "result = self.coefficients[-1]", "result = self.coefficients[len(self.coefficients) - 1]"),
+    T("c08-fn-twin-poly-renamed", ["C08"], FN, "            v = x\n            for i in range(len(self.coefficients) - 2, -1, -1):\n                if self.coefficients[i] != 0:\n                    result += self.coefficients[i] * v\n                v = v * x\n", "            power = x\n            for j in range(len(self.coefficients) - 2, -1, -1):\n                if 0 != self.coefficients[j]:\n                    result = self.coefficients[j] * power + result\n                power = x * power\n"),
+    T("c08-fn-twin-constant-def", ["C08"], FN, "        self.set_function(lambda x: self.value)", "        def _const(x):\n            return self.value\n\n        self.set_function(_const)"),
+]
